@@ -146,7 +146,7 @@ def flat(glyphs, gi, depth=0):
     return pts, np_, nc, dep, exact
 
 
-def derived(tabs, check_bounds=True):
+def derived(tabs, check_bounds=True, vertical=False):
     """Errors in the derived fields of a TrueType-flavoured font whose tables were all recompiled
     with recalcBBoxes=True."""
     errs = []
@@ -227,6 +227,27 @@ def derived(tabs, check_bounds=True):
     exp = (minl, minr, xme) if anyc else (0, 0, 0)
     if (gl, gr, gx) != exp:
         errs.append("hhea (minLeftSideBearing, minRightSideBearing, xMaxExtent) %r, glyphs give %r" % ((gl, gr, gx), exp))
+    if vertical and "vhea" in tabs and "vmtx" in tabs and len(tabs["vhea"]) >= 36:
+        # the vertical header's extents, when that table was recompiled with the outlines decoded: every glyph
+        # with an outline counts, also one whose box has no height
+        vm = read_metrics(tabs, "vhea", "vmtx")
+        if vm is not None and len(vm) == ng:
+            vhea = tabs["vhea"]
+            mint = minb = 10**9
+            yme = -(10**9)
+            anyv = False
+            for i, g in enumerate(glyphs):
+                if g is None or g["nc"] == 0:
+                    continue
+                hgt = g["bbox"][3] - g["bbox"][1]
+                anyv = True
+                mint = min(mint, vm[i][1])
+                minb = min(minb, vm[i][0] - vm[i][1] - hgt)
+                yme = max(yme, vm[i][1] + hgt)
+            got = (u16(vhea, 10),) + struct.unpack_from(">3h", vhea, 12)
+            exp = (max(a for a, _ in vm),) + ((mint, minb, yme) if anyv else (0, 0, 0))
+            if got != exp:
+                errs.append("vhea (advanceHeightMax, minTopSideBearing, minBottomSideBearing, yMaxExtent) %r, glyphs give %r" % (got, exp))
     if fmt == 0 and offs and offs[-1] >= 0x20000:
         errs.append("short loca format with glyf of %d bytes" % offs[-1])
     if fmt == 0 and any(o % 2 for o in offs):
